@@ -12,7 +12,7 @@ from fractions import Fraction
 
 from . import arr as A
 from .arr import Arr, Unsupported, AbstractError, as_arr, prod
-from .poly import Poly, to_num, as_poly
+from .poly import Poly, to_num, as_poly, pk, sym_id
 from .interp import Obj, ClassVal, ArrayType, Opaque, Func, BoundMethod, _MISSING
 
 
@@ -261,6 +261,10 @@ def make_shims(world):
         return (Arr((), [sign], "float"), Arr((), [Poly.fn("logabsdet", Poly.const(d))], "float"))
 
     def eigh(m, symmetrize_input=True, **k):
+        """Symmetric eigendecomposition as uninterpreted symbols, modelled *up to the covariance of eigh
+        under signed permutations* (axiom A8): for h in B_n, eigvals(h C h^T) = eigvals(C) and
+        eigvecs(h C h^T) = h eigvecs(C).  The symbols are attached to a canonical representative of the
+        orbit of C, so the identity holds structurally; eigenvector sign/degeneracy is not modelled."""
         M = as_arr(m)
         n = M.shape[-1]
         W.trace.append(("eigh", M, A._SITE[0]))
@@ -268,15 +272,38 @@ def make_shims(world):
         gv, gw = geo if geo is not None else (None, None)
         if M.elems is None:
             return (Arr(M.shape[:-1], None, "float", gv), Arr(M.shape, None, "float", gw))
+        if M.ndim < 2 or M.shape[-2] != n:
+            raise AbstractError("eigh of a non-square matrix")
         lead = prod(M.shape[:-2])
         vals, vecs = [], []
+        if n <= 3:
+            hs = []
+            for perm in itertools.permutations(range(n)):
+                for signs in itertools.product((1, -1), repeat=n):
+                    hs.append((perm, signs))
+        else:
+            hs = [(tuple(range(n)), (1,) * n)]
         for b in range(lead):
-            key = tuple(as_poly(e).key() for e in M.elems[b * n * n:(b + 1) * n * n])
+            C = [as_poly(e) for e in M.elems[b * n * n:(b + 1) * n * n]]
+            best = None
+            for perm, signs in hs:
+                # (h C h^T)[i][j] = s_i s_j C[perm_i][perm_j]   with h[i][perm_i] = s_i
+                key = tuple(pk(C[perm[i] * n + perm[j]].scale(signs[i] * signs[j])) for i in range(n) for j in range(n))
+                if best is None or key < best[0]:
+                    best = (key, perm, signs)
+            key, perm, signs = best
+            kid = sym_id(("eighkey", key))
             for i in range(n):
-                vals.append(Poly.fn("eigval", key, i))
+                vals.append(Poly.fn("eigval", kid, i))
+            # C = h^T C_can h  =>  eigvecs(C) = h^T U_can :  U[a][j] = sum_i h[i][a] U_can[i][j]
+            rows = {}
             for i in range(n):
+                rows[perm[i]] = (i, signs[i])
+            for a in range(n):
+                i, sg = rows[a]
                 for j in range(n):
-                    vecs.append(Poly.fn("eigvec", key, i, j))
+                    u = Poly.fn("eigvec", kid, i, j)
+                    vecs.append(u if sg == 1 else -u)
         return (Arr(M.shape[:-1], vals, "float", gv), Arr(M.shape, vecs, "float", gw))
 
     def opaque_linalg(name):
@@ -287,7 +314,7 @@ def make_shims(world):
             geo = A._geo_call("opaque_linalg", name, arrs)
             if any(x.elems is None for x in arrs):
                 return Arr(M.shape, None, "float", geo)
-            key = tuple(tuple(as_poly(e).key() for e in x.elems) for x in arrs)
+            key = sym_id(("linalgkey", tuple(tuple(pk(e) for e in x.elems) for x in arrs)))
             return Arr(M.shape, [Poly.fn(name, key, i) for i in range(M.size)], "float", geo)
 
         return f
@@ -1083,17 +1110,19 @@ class EqxGroupNorm(object):
         if X.elems is None:
             return Arr(X.shape, None, "float", geo)
         cpg = X.shape[0] // self.groups
-        per = prod(X.shape[1:])
-        el = []
-        for c in range(X.shape[0]):
-            g = c // cpg
-            gkey = tuple(as_poly(e).key() for e in X.elems[g * cpg * per:(g + 1) * cpg * per])
-            for i in range(per):
-                v = Poly.fn("standardize", as_poly(X.elems[c * per + i]), gkey)
-                if self.channelwise_affine:
-                    v = v * self.weight.elems[c] + self.bias.elems[c] if self.weight.elems is not None else Poly.fn("affine", v)
-                el.append(v)
-        out = Arr(X.shape, el, "float", geo)
+        # exact definition: per group, (x - mean) * rsqrt(var + eps) [* weight + bias]
+        Xg = A.reshape(X, (self.groups, cpg) + X.shape[1:])
+        axes = tuple(range(1, Xg.ndim))
+        mean = A.reduce_("mean", Xg, axes, keepdims=True)
+        cen = Xg - mean
+        var = A.reduce_("mean", cen * cen, axes, keepdims=True)
+        eps = self.eps if not isinstance(self.eps, Arr) else self.eps
+        inv = A.ew1("rsqrt", var + eps)
+        out = A.reshape(cen * inv, X.shape)
+        if self.channelwise_affine:
+            bshape = (X.shape[0],) + (1,) * (X.ndim - 1)
+            out = out * A.reshape(self.weight, bshape) + A.reshape(self.bias, bshape)
+        out = Arr(out.shape, out.elems, "float", geo)
         if state is not None:
             return out, state
         return out
@@ -1207,5 +1236,5 @@ class EqxConv(object):
         if X.elems is None or not self.W.track:
             return Arr(shape, None, "float", geo)
         self.W.app_counter += 1
-        key = tuple(as_poly(e).key() for e in X.elems)
+        key = sym_id(("convkey", tuple(pk(e) for e in X.elems)))
         return Arr(shape, [Poly.fn("eqxconv", self.weight.tag, key, i) for i in range(prod(shape))], "float", geo)
